@@ -1,15 +1,32 @@
-//! C02, end-to-end EXPLORATION (a test, not a proof): raw client bytes are written to a loopback TCP
-//! connection served by the real `kvarn::handle_connection` on a host with the default extensions
-//! (`Extensions::new()`: uri redirect, CORS gate, CSP, nonce, server header) + CORS rules + a vary
-//! rule + handlers (cached page, query-parsing page, body-reading page), files (plain, `!> nonce`,
-//! `!> tmpl`, hidden) and `stream_body()`.  Observed: a panic in ANY task of the process (counting
-//! panic hook) and the connection task's `JoinHandle::is_panic`; the task must end after the client
-//! has closed its sending side.
+//! C02, the live side.  Raw client bytes are written to a loopback TCP connection served by the
+//! real kvarn on a host collection with
+//!   * the default host `localhost`: `Extensions::new()` (uri redirect, CORS gate, CSP, nonce,
+//!     server header) + `kvarn_extensions::mount_all` (`download`, `cache`, `hide`, `private`,
+//!     `allow-ips`, `tmpl`, push) + CORS rules + vary rules on three request headers + handlers
+//!     (cached page, query-parsing page, body-reading page), files (plain, `!> nonce`,
+//!     `!> tmpl`, `!> cache`, `!> allow-ips`, `!> hide`, `!> download`, hidden), templates,
+//!     `errors/404.html` and `stream_body()`;
+//!   * `b.example` / `alias.example` (plain `Extensions::new()`);
+//!   * `lim.example`: the same kind of host with the request limiter ON (1 request per 0.3 s,
+//!     then 429, then dropped) so that the 429 answer and the drop are reached under malformed input.
 //!
-//! `stream.window` reads the `content-length` the streamed reply announces (`end - start`).
+//! components
+//!   explore.conn    `kvarn::handle_connection` on an accepted socket; observed: the task's
+//!                   `JoinHandle::is_panic`, a counting panic hook, the task ends after the client closed
+//!   explore.server  the same bytes against a real server (`RunConfig::execute`); observed: the panic
+//!                   hook and `shutdown::Manager::get_connecions()` returning to its idle value
+//!   explore.file    generated file contents (`!> ...` lines) and template files, served over loopback
+//!   tmpl.render     a `!> tmpl` page and its template file through `handle_cache`: the rendered body (compared with
+//!                   Model/Templates.v)
+//!   explore.date    `If-Modified-Since` through the REAL `kvarn::handle_cache` on a warmed cache
+//!   ims.decide      the same, reporting 200 / 304 (compared with Model/Ims.v)
+//!   stream.window   `stream_body()`: announced `content-length`, the bytes really sent, and the
+//!                   framing of the next pipelined response
+//!   c02.path        one request against a minimal collection; the class of the answer (closed / 409 /
+//!                   400 / 403 / 204 / reply) is compared with the model's `request_path`
 use crate::xval::X;
 use kvarn::prelude::*;
-use std::sync::atomic::{AtomicU64, Ordering};
+use std::sync::atomic::{AtomicU64, AtomicUsize, Ordering};
 use std::sync::{Arc, Mutex, OnceLock};
 use std::time::Duration;
 
@@ -28,6 +45,9 @@ fn install_hook() {
         }));
     });
 }
+fn last_panic() -> String {
+    LAST_PANIC.lock().map(|m| m.clone()).unwrap_or_default()
+}
 
 fn rt() -> &'static tokio::runtime::Runtime {
     static RT: OnceLock<tokio::runtime::Runtime> = OnceLock::new();
@@ -40,7 +60,13 @@ fn rt() -> &'static tokio::runtime::Runtime {
     })
 }
 
-pub const STREAM_LENS: [usize; 5] = [0, 1, 10, 1000, 70000];
+/// Outcome of a live run that is NOT a verdict: the harness could not do its part (no socket, no
+/// answer within the generous time limit on a busy machine).  The driver counts these as not executed.
+fn trouble(msg: &str) -> X {
+    X::L(vec![X::N(93), X::b(msg.as_bytes())])
+}
+
+pub const STREAM_LENS: [usize; 6] = [0, 1, 10, 1000, 70000, 200000];
 
 fn lang(header: &str) -> &'static str {
     let mut langs = utils::list_header(header);
@@ -55,45 +81,83 @@ fn lang(header: &str) -> &'static str {
     "en-GB"
 }
 
-fn build_descriptor() -> Arc<PortDescriptor> {
-    // one fixture tree per run: the shards of a run share their parent (the driver), which removes the tree at exit;
-    // files are written under a private name and renamed, so that a reader never sees a partial file
-    let dir = format!("{}/kvh-c02-{}/", std::env::temp_dir().display(), std::os::unix::process::parent_id());
-    let public = format!("{dir}public");
-    std::fs::create_dir_all(format!("{public}/sub")).expect("fixture dir");
-    std::fs::create_dir_all(format!("{public}/stream")).expect("fixture dir");
-    let put = |name: &str, data: &[u8]| {
-        let path = format!("{public}/{name}");
-        if std::fs::metadata(&path).map_or(true, |m| m.len() != data.len() as u64) {
-            let tmp = format!("{path}.{}.tmp", std::process::id());
-            std::fs::write(&tmp, data).expect("fixture file");
-            std::fs::rename(&tmp, &path).expect("fixture rename");
+/// one fixture tree per run: the shards of a run share their parent (the driver), which removes the tree at exit
+fn fixture_dir() -> String {
+    format!("{}/kvh-c02-{}/", std::env::temp_dir().display(), std::os::unix::process::parent_id())
+}
+/// files are written under a private name and renamed, so that a reader never sees a partial file
+fn put(rel: &str, data: &[u8]) {
+    let path = format!("{}{rel}", fixture_dir());
+    if std::fs::read(&path).map_or(true, |d| d != data) {
+        if let Some(p) = std::path::Path::new(&path).parent() {
+            let _ = std::fs::create_dir_all(p);
         }
-    };
-    let text: Vec<u8> = (0..3000).map(|i| b"lorem ipsum dolor sit amet "[i % 27]).collect();
-    put("index.html", &text);
-    put("f.txt", &text[..1000]);
-    put("sub/index.html", b"<h1>sub</h1>");
-    put("n.html", b"!> nonce\n<script nonce=\"x\">a</script><script nonce='y'>");
-    put("e.html", b"!> nonce");
-    put("t.html", b"!> tmpl a.html b &> hide \r\n<p>t</p>");
-    put("x.html", b"!> \n");
-    put("secret.private", b"private");
-    for n in STREAM_LENS {
-        let data: Vec<u8> = (0..n).map(|i| (i % 251) as u8).collect();
-        put(&format!("stream/s{n}.bin"), &data);
+        let tmp = format!("{path}.{}.tmp", std::process::id());
+        std::fs::write(&tmp, data).expect("fixture file");
+        std::fs::rename(&tmp, &path).expect("fixture rename");
     }
+}
 
+static H_CALLS: AtomicUsize = AtomicUsize::new(0);
+
+fn fixture_files() {
+    static ONCE: OnceLock<()> = OnceLock::new();
+    ONCE.get_or_init(|| {
+        let text: Vec<u8> = (0..3000).map(|i| b"lorem ipsum dolor sit amet "[i % 27]).collect();
+        put("public/index.html", &text);
+        put("public/f.txt", &text[..1000]);
+        put("public/sub/index.html", b"<h1>sub</h1>");
+        put("public/n.html", b"!> nonce\n<script nonce=\"x\">a</script><script nonce='y'>");
+        put("public/e.html", b"!> nonce");
+        put("public/t.html", b"!> tmpl a.html b &> hide \r\n<p>t</p>");
+        put("public/x.html", b"!> \n");
+        put("public/secret.private", b"private");
+        // kvarn-extensions' Present extensions
+        put("public/t2.html", b"!> tmpl std.html missing.html\n$[head]<p>$[x] \\$[esc] \\\\$[x] $[] $[never closed");
+        put("public/t3.html", b"!> tmpl std.html\n<!-- tmpl-ignore -->\n$[head]$[\xff]$[tail]");
+        put("public/c1.html", b"!> cache client:full server:none\n<p>c1</p>");
+        put("public/c2.html", b"!> cache client:99999999999999999999s server:3s client: server :x: \n<p>c2</p>");
+        put("public/c3.html", b"!> cache\n");
+        put("public/a1.html", b"!> allow-ips 127.0.0.1 999.1.1.1 ::1 x\n<p>a1</p>");
+        put("public/a2.html", b"!> allow-ips 10.0.0.1 &> cache server:full &> nonce\n<p>a2</p>");
+        put("public/a3.html", b"!> allow-ips\n");
+        put("public/h1.html", b"!> hide\n<p>h1</p>");
+        put("public/h2.html", b"!> download &> hide &> tmpl std.html\n");
+        put("public/d1.html", b"!> download\n<p>d1</p>");
+        put("public/u1.html", b"!> unknown-extension a b &> &> \n<p>u1</p>");
+        put("public/odd.name.tar.gz", b"\x1f\x8b\x08\x00");
+        put("public/noext", b"no extension");
+        put("public/x.\u{e9}", b"non-ascii extension");
+        put("templates/std.html", b"$[head]\n<head></head>\n$[x] value of x\n$[tail]\r\n</html>\r\n");
+        put("templates/a.html", b"$[a]\nA\n");
+        put("errors/404.html", b"!> tmpl std.html\n$[head]<h1>not here</h1>");
+        for n in STREAM_LENS {
+            let data: Vec<u8> = (0..n).map(|i| (i % 251) as u8).collect();
+            put(&format!("public/stream/s{n}.bin"), &data);
+        }
+        let _ = std::fs::create_dir_all(format!("{}public/gen", fixture_dir()));
+        let _ = std::fs::create_dir_all(format!("{}other", fixture_dir()));
+    });
+}
+
+fn text_page() -> Bytes {
+    Bytes::from((0..3000).map(|i| b"lorem ipsum dolor sit amet "[i % 27]).collect::<Vec<u8>>())
+}
+
+/// the extensions of the main host (also of the rate-limited one)
+fn main_extensions() -> Extensions {
     let mut ext = Extensions::new();
+    kvarn_extensions::mount_all(&mut ext);
     let cors = Cors::empty()
         .add("/api/*", CorsAllowList::new(Duration::from_secs(60)).add_origin("https://icelk.dev").add_method(Method::PUT))
         .add("/h", CorsAllowList::new(Duration::from_secs(60)).allow_all_origins());
     ext.with_cors(cors.arc());
     // a cached, compressible page
-    let page = Bytes::from(text.clone());
+    let page = text_page();
     ext.add_prepare_single(
         "/h",
         prepare!(_req, _host, _path, _addr, move |page: Bytes| {
+            H_CALLS.fetch_add(1, Ordering::SeqCst);
             let mut r = Response::new(page.clone());
             r.headers_mut().insert("content-type", HeaderValue::from_static("text/html"));
             FatResponse::cache(r)
@@ -136,28 +200,58 @@ fn build_descriptor() -> Arc<PortDescriptor> {
             FatResponse::no_cache(Response::new(Bytes::from(format!("read {n}").into_bytes())))
         }),
     );
+    // tells which process answers (explore.server checks that it talks to its own server)
+    ext.add_prepare_single(
+        "/whoami",
+        prepare!(_req, _host, _path, _addr, {
+            FatResponse::no_cache(Response::new(Bytes::from(format!("pid {}", std::process::id()).into_bytes())))
+        }),
+    );
     ext.add_prepare_fn(
         Box::new(|req, _| req.uri().path().starts_with("/stream/")),
         extensions::stream_body(),
         extensions::Id::new(6, "stream body"),
     );
+    ext
+}
 
-    let mut host = Host::unsecure("localhost", &dir, ext, host::Options::default());
-    host.limiter.disable();
+fn add_vary(host: &mut Host) {
     host.vary.add_mut(
         "/v",
-        vary::Settings::empty().add_rule("accept-language", |h| std::borrow::Cow::Borrowed(lang(h)), "en-GB"),
+        vary::Settings::empty()
+            .add_rule("accept-language", |h| std::borrow::Cow::Borrowed(lang(h)), "en-GB")
+            .add_rule(
+                "user-agent",
+                |h| std::borrow::Cow::Borrowed(if h.contains("Mobile") { "mobile" } else { "desktop" }),
+                "desktop",
+            )
+            .add_rule("cookie", |h| std::borrow::Cow::Owned(h.split(';').next().unwrap_or("").trim().to_owned()), ""),
     );
+}
+
+fn build_collection() -> Arc<HostCollection> {
+    fixture_files();
+    let dir = fixture_dir();
+    let mut host = Host::unsecure("localhost", &dir, main_extensions(), host::Options::default());
+    host.limiter.disable();
+    add_vary(&mut host);
     let mut other = Host::unsecure("b.example", format!("{dir}other"), Extensions::new(), host::Options::default());
     other.limiter.disable();
     other.add_alternative_name("alias.example");
-    let coll = HostCollection::builder().default(host).insert(other).build();
-    Arc::new(PortDescriptor::unsecure(8080, coll))
+    // the request limiter ON: one request per 0.3 s passes, the next two get 429, the rest is dropped
+    let mut limited = Host::unsecure("lim.example", &dir, main_extensions(), host::Options::default());
+    limited.limiter = kvarn::limiting::Manager::new(1, 1, 0.3);
+    add_vary(&mut limited);
+    HostCollection::builder().default(host).insert(other).insert(limited).build()
 }
 
+fn collection() -> Arc<HostCollection> {
+    static C: OnceLock<Arc<HostCollection>> = OnceLock::new();
+    C.get_or_init(build_collection).clone()
+}
 fn descriptor() -> Arc<PortDescriptor> {
     static D: OnceLock<Arc<PortDescriptor>> = OnceLock::new();
-    D.get_or_init(build_descriptor).clone()
+    D.get_or_init(|| Arc::new(PortDescriptor::unsecure(8080, collection()))).clone()
 }
 
 enum Run {
@@ -167,32 +261,42 @@ enum Run {
     Harness(String),
 }
 
-async fn run_conn(data: Vec<u8>, chunks: Vec<usize>, read_response: bool) -> Run {
-    use tokio::io::{AsyncReadExt, AsyncWriteExt};
-    let desc = descriptor();
-    let before = PANICS.load(Ordering::SeqCst);
-    let listener = match tokio::net::TcpListener::bind("127.0.0.1:0").await {
-        Ok(l) => l,
-        Err(e) => return Run::Harness(format!("bind {e}")),
-    };
-    let addr = match listener.local_addr() {
-        Ok(a) => a,
-        Err(e) => return Run::Harness(format!("addr {e}")),
-    };
-    let mut client = match tokio::net::TcpStream::connect(addr).await {
-        Ok(c) => c,
-        Err(e) => return Run::Harness(format!("connect {e}")),
-    };
-    let (server_end, peer) = match listener.accept().await {
-        Ok(p) => p,
-        Err(e) => return Run::Harness(format!("accept {e}")),
+/// an accepted loopback pair whose server end is served by `handle_connection`
+/// ONE listening socket per process (a listener per connection would leave its port in TIME_WAIT and drain the
+/// ephemeral ports of the machine in a long run); the harness makes one connection at a time, so the next accepted
+/// socket is the one just connected.
+async fn listener() -> Result<&'static tokio::net::TcpListener, String> {
+    static L: tokio::sync::OnceCell<tokio::net::TcpListener> = tokio::sync::OnceCell::const_new();
+    L.get_or_try_init(|| async { tokio::net::TcpListener::bind("127.0.0.1:0").await.map_err(|e| format!("bind {e}")) }).await
+}
+
+async fn connect(desc: Arc<PortDescriptor>) -> Result<(tokio::net::TcpStream, tokio::task::JoinHandle<()>), String> {
+    let listener = listener().await?;
+    let addr = listener.local_addr().map_err(|e| format!("addr {e}"))?;
+    let client = tokio::net::TcpStream::connect(addr).await.map_err(|e| format!("connect {e}"))?;
+    let (server_end, peer) = loop {
+        let (s, peer) = tokio::time::timeout(Duration::from_secs(30), listener.accept())
+            .await
+            .map_err(|_| "accept timed out".to_string())?
+            .map_err(|e| format!("accept {e}"))?;
+        // a connection left over from an attempt that failed half-way is not ours
+        if client.local_addr().map_or(false, |a| a == peer) {
+            break (s, peer);
+        }
     };
     let task = tokio::spawn(async move {
         let _ = kvarn::handle_connection(kvarn::Incoming::Tcp(server_end), peer, desc, || true).await;
     });
-    // write in the scheduled segments; a failed write means the server already closed
+    Ok((client, task))
+}
+
+/// writes `data` in the scheduled segments, half-closes, optionally reads until the server closes
+async fn talk(client: &mut tokio::net::TcpStream, data: &[u8], chunks: Vec<usize>, read_response: bool) -> Vec<u8> {
+    use tokio::io::{AsyncReadExt, AsyncWriteExt};
     let mut off = 0;
+    let scheduled = !chunks.is_empty();
     let mut sched = chunks.into_iter();
+    // a failed write means the server already closed
     while off < data.len() {
         let n = sched.next().unwrap_or(data.len()).max(1).min(data.len() - off);
         if client.write_all(&data[off..off + n]).await.is_err() {
@@ -200,65 +304,431 @@ async fn run_conn(data: Vec<u8>, chunks: Vec<usize>, read_response: bool) -> Run
         }
         let _ = client.flush().await;
         off += n;
-        tokio::task::yield_now().await;
+        if scheduled && off < data.len() {
+            // lets the server see the segments one by one (which reads they end up in decides only what is covered, never a verdict)
+            tokio::time::sleep(Duration::from_millis(2)).await;
+        } else {
+            tokio::task::yield_now().await;
+        }
     }
     let _ = client.shutdown().await;
+    let mut got = Vec::new();
     if read_response {
         let mut sink = vec![0u8; 16 * 1024];
-        let deadline = tokio::time::Instant::now() + Duration::from_secs(20);
+        let deadline = tokio::time::Instant::now() + Duration::from_secs(30);
         loop {
             match tokio::time::timeout_at(deadline, client.read(&mut sink)).await {
                 Ok(Ok(0)) | Ok(Err(_)) => break,
-                Ok(Ok(_)) => {}
+                Ok(Ok(n)) => {
+                    if got.len() < 1 << 20 {
+                        got.extend_from_slice(&sink[..n]);
+                    }
+                }
                 Err(_) => break,
             }
         }
     }
+    got
+}
+
+async fn run_conn(data: Vec<u8>, chunks: Vec<usize>, read_response: bool) -> (Run, Vec<u8>) {
+    let before = PANICS.load(Ordering::SeqCst);
+    let (mut client, task) = match connect(descriptor()).await {
+        Ok(p) => p,
+        Err(e) => return (Run::Harness(e), Vec::new()),
+    };
+    let got = talk(&mut client, &data, chunks, read_response).await;
     drop(client);
-    let joined = tokio::time::timeout(Duration::from_secs(20), task).await;
+    let joined = tokio::time::timeout(Duration::from_secs(30), task).await;
     let after = PANICS.load(Ordering::SeqCst);
-    match joined {
+    let run = match joined {
+        Ok(Err(e)) if e.is_panic() => Run::Panicked(last_panic()),
+        _ if after != before => Run::Panicked(last_panic()),
+        // the time limit is a harness limit: a second, unhurried attempt decides (see `explore_conn`)
         Err(_) => Run::Hung,
-        Ok(Err(e)) if e.is_panic() => Run::Panicked(LAST_PANIC.lock().map(|m| m.clone()).unwrap_or_default()),
-        Ok(_) if after != before => Run::Panicked(LAST_PANIC.lock().map(|m| m.clone()).unwrap_or_default()),
         Ok(_) => Run::Clean,
+    };
+    (run, got)
+}
+
+fn parse_conn_input(x: &X) -> Option<(Vec<u8>, Vec<usize>, bool)> {
+    let l = x.as_l()?;
+    if l.len() != 3 {
+        return None;
     }
+    let (data, segs, rd) = (l[0].as_b()?.to_vec(), l[1].as_l()?, l[2].as_bool()?);
+    let mut chunks = Vec::new();
+    for s in segs {
+        chunks.push(s.as_n()? as usize);
+    }
+    Some((data, chunks, rd))
 }
 
 /// input: (L (B bytes) (L segment..) (N read_response))
 fn explore_conn(x: &X) -> X {
+    let Some((data, chunks, rd)) = parse_conn_input(x) else { return X::bad() };
+    install_hook();
+    let mut last = String::new();
+    let mut hung = 0;
+    // a harness failure (no port, ...) is retried, never turned into a verdict; a task that is still running after
+    // 30 s is tried again: only when it hangs twice it is reported (a hang is a property failure, load is not)
+    for _ in 0..3 {
+        match rt().block_on(run_conn(data.clone(), chunks.clone(), rd)).0 {
+            Run::Clean => return X::ok(X::L(vec![])),
+            Run::Panicked(msg) => return X::L(vec![X::N(2), X::b(msg.as_bytes())]),
+            Run::Hung => {
+                hung += 1;
+                if hung == 2 {
+                    return X::L(vec![X::N(94), X::b(b"connection task still running 30 s after the client closed (twice)")]);
+                }
+            }
+            Run::Harness(e) => last = e,
+        }
+    }
+    trouble(&last)
+}
+
+// ----------------------------------------------------------------------------------------------------------------
+// explore.server: a real server, the connection count of the shutdown manager
+// ----------------------------------------------------------------------------------------------------------------
+
+struct Server {
+    port: u16,
+    mgr: Arc<shutdown::Manager>,
+    idle: isize,
+    _lock: std::fs::File,
+}
+
+/// A port nobody else uses: candidates come from a range outside the ephemeral ports and outside the ranges the
+/// other checks use; a candidate is taken only with an exclusive lock on a per-port lock file (held for the life of
+/// the process), while nothing answers on it, and after the started server has told that it is this process.
+fn start_server() -> Result<Server, String> {
+    use std::os::unix::io::AsRawFd;
+    extern "C" {
+        fn flock(fd: i32, op: i32) -> i32;
+    }
+    let pid = std::process::id();
+    let mut last = String::from("no candidate port");
+    for attempt in 0..40u32 {
+        let port = (28_000 + (pid.wrapping_mul(37).wrapping_add(attempt * 101)) % 4_000) as u16;
+        let lock_path = format!("{}/kvh-port-{port}.lock", std::env::temp_dir().display());
+        let Ok(lock) = std::fs::OpenOptions::new().create(true).write(true).open(&lock_path) else { continue };
+        // LOCK_EX | LOCK_NB
+        if unsafe { flock(lock.as_raw_fd(), 2 | 4) } != 0 {
+            continue;
+        }
+        let addr = SocketAddr::new(IpAddr::V4(net::Ipv4Addr::LOCALHOST), port);
+        match std::net::TcpStream::connect_timeout(&addr, Duration::from_secs(2)) {
+            Err(e) if e.kind() == std::io::ErrorKind::ConnectionRefused => {}
+            _ => continue,
+        }
+        let data = build_collection();
+        let started = std::panic::catch_unwind(std::panic::AssertUnwindSafe(|| {
+            rt().block_on(async move {
+                RunConfig::new().bind(PortDescriptor::unsecure(port, data).ipv4_only()).disable_ctl().execute().await
+            })
+        }));
+        let mgr = match started {
+            Ok(m) => m,
+            Err(_) => {
+                last = format!("server did not start on port {port}");
+                continue;
+            }
+        };
+        // is it us?
+        let me = format!("pid {pid}");
+        let answer = rt().block_on(async move {
+            use tokio::io::{AsyncReadExt, AsyncWriteExt};
+            let mut c = tokio::time::timeout(Duration::from_secs(10), tokio::net::TcpStream::connect(addr)).await.ok()?.ok()?;
+            c.write_all(b"GET /whoami HTTP/1.1\r\nHost: localhost\r\nConnection: close\r\n\r\n").await.ok()?;
+            let _ = c.shutdown().await;
+            let mut buf = Vec::new();
+            let _ = tokio::time::timeout(Duration::from_secs(20), c.read_to_end(&mut buf)).await;
+            Some(buf)
+        });
+        if answer.as_deref().map_or(false, |a| a.ends_with(me.as_bytes())) {
+            // the count at rest: one per listener
+            let mut idle = mgr.get_connecions();
+            for _ in 0..200 {
+                std::thread::sleep(Duration::from_millis(10));
+                let now = mgr.get_connecions();
+                if now == idle {
+                    break;
+                }
+                idle = now;
+            }
+            return Ok(Server { port, mgr, idle, _lock: lock });
+        }
+        last = format!("the server on port {port} is not this process");
+        mgr.shutdown();
+    }
+    Err(last)
+}
+
+fn server() -> Result<&'static Server, String> {
+    static S: OnceLock<Result<Server, String>> = OnceLock::new();
+    S.get_or_init(start_server).as_ref().map_err(Clone::clone)
+}
+
+/// input: as explore.conn.  The connection count must be back at its idle value after the client has gone.
+fn explore_server(x: &X) -> X {
+    let Some((data, chunks, rd)) = parse_conn_input(x) else { return X::bad() };
+    install_hook();
+    let srv = match server() {
+        Ok(s) => s,
+        Err(e) => return trouble(&e),
+    };
+    let before = PANICS.load(Ordering::SeqCst);
+    let addr = SocketAddr::new(IpAddr::V4(net::Ipv4Addr::LOCALHOST), srv.port);
+    let r = rt().block_on(async move {
+        let mut client = match tokio::time::timeout(Duration::from_secs(10), tokio::net::TcpStream::connect(addr)).await {
+            Ok(Ok(c)) => c,
+            Ok(Err(e)) => return Err(format!("connect {e}")),
+            Err(_) => return Err("connect timed out".to_string()),
+        };
+        talk(&mut client, &data, chunks, rd).await;
+        drop(client);
+        Ok(())
+    });
+    if let Err(e) = r {
+        return trouble(&e);
+    }
+    // the count returns to idle (the accept loop's task releases it when handle_connection has returned or panicked)
+    let deadline = std::time::Instant::now() + Duration::from_secs(40);
+    let mut count = srv.mgr.get_connecions();
+    while count != srv.idle && std::time::Instant::now() < deadline {
+        std::thread::sleep(Duration::from_millis(2));
+        count = srv.mgr.get_connecions();
+    }
+    if PANICS.load(Ordering::SeqCst) != before {
+        return X::L(vec![X::N(2), X::b(last_panic().as_bytes())]);
+    }
+    if count != srv.idle {
+        return X::L(vec![X::N(95), X::b(format!("connection count {count}, idle value {}, 40 s after the client closed", srv.idle).as_bytes())]);
+    }
+    X::ok(X::L(vec![]))
+}
+
+// ----------------------------------------------------------------------------------------------------------------
+// explore.file: generated file contents through the Present extensions
+// ----------------------------------------------------------------------------------------------------------------
+
+/// input: (L (B file content) (B template file content) (N kind)); kind 0 = `.html`, 1 = `.private`, 2 = no extension
+/// The template file is referred to as `T` in the content (replaced by its generated name).
+fn explore_file(x: &X) -> X {
+    static N: AtomicUsize = AtomicUsize::new(0);
     let l = match x.as_l() {
         Some(l) if l.len() == 3 => l,
         _ => return X::bad(),
     };
-    let (data, segs, rd) = match (l[0].as_b(), l[1].as_l(), l[2].as_bool()) {
-        (Some(d), Some(s), Some(r)) => (d.to_vec(), s, r),
+    let (content, tmpl, kind) = match (l[0].as_b(), l[1].as_b(), l[2].as_n()) {
+        (Some(c), Some(t), Some(k)) => (c, t, k),
         _ => return X::bad(),
     };
-    let mut chunks = Vec::new();
-    for s in segs {
-        match s.as_n() {
-            Some(n) => chunks.push(n as usize),
-            None => return X::bad(),
-        }
-    }
     install_hook();
-    let mut last = String::new();
-    // a harness failure (no port, ...) is retried, never turned into a verdict
-    for _ in 0..3 {
-        match rt().block_on(run_conn(data.clone(), chunks.clone(), rd)) {
-            Run::Clean => return X::ok(X::L(vec![])),
-            Run::Panicked(msg) => return X::L(vec![X::N(2), X::b(msg.as_bytes())]),
-            Run::Hung => return X::L(vec![X::N(94), X::b(b"connection task still running 20 s after the client closed")]),
-            Run::Harness(e) => last = e,
+    fixture_files();
+    let n = N.fetch_add(1, Ordering::SeqCst);
+    let stem = format!("{}-{n}", std::process::id());
+    let tname = format!("g{stem}.html");
+    // "T" as an argument stands for the generated template file
+    let mut body = Vec::new();
+    let mut i = 0;
+    while i < content.len() {
+        let word_start = i == 0 || content[i - 1] == b' ';
+        let word_end = i + 1 == content.len() || matches!(content[i + 1], b' ' | b'\n' | b'\r');
+        if content[i] == b'T' && word_start && word_end {
+            body.extend_from_slice(tname.as_bytes());
+        } else {
+            body.push(content[i]);
         }
+        i += 1;
     }
-    X::L(vec![X::N(93), X::b(last.as_bytes())])
+    let ext = match kind {
+        0 => ".html",
+        1 => ".private",
+        _ => "",
+    };
+    let rel = format!("public/gen/{stem}{ext}");
+    put(&rel, &body);
+    put(&format!("templates/{tname}"), tmpl);
+    let mut out = X::ok(X::L(vec![]));
+    'requests: for head in [
+        format!("GET /gen/{stem}{ext} HTTP/1.1\r\nHost: localhost\r\nAccept-Encoding: gzip\r\n\r\n"),
+        format!("HEAD /gen/{stem}{ext} HTTP/1.1\r\nHost: localhost\r\nRange: bytes=1-2\r\n\r\n"),
+        format!("GET /gen/{stem}{ext}?q HTTP/1.0\r\nHost: lim.example\r\nIf-Modified-Since: Fri, 31 Dec 9999 23:59:59 GMT\r\n\r\n"),
+    ] {
+        let mut last = String::new();
+        for _ in 0..3 {
+            match rt().block_on(run_conn(head.clone().into_bytes(), Vec::new(), true)).0 {
+                Run::Clean => continue 'requests,
+                Run::Panicked(msg) => {
+                    out = X::L(vec![X::N(2), X::b(msg.as_bytes())]);
+                    break 'requests;
+                }
+                Run::Hung => last = "connection task still running after 30 s".to_string(),
+                Run::Harness(e) => last = e,
+            }
+        }
+        out = trouble(&last);
+        break;
+    }
+    let _ = std::fs::remove_file(format!("{}{rel}", fixture_dir()));
+    let _ = std::fs::remove_file(format!("{}templates/{tname}", fixture_dir()));
+    out
 }
 
-/// input: (L checked (L [range]) file_len) -> Ok content-length (of the 200, or of the 206 a ranged request gets) | Err 416
+/// compared: input (L (B body) (L [template file])) -> Ok (B rendered body).  The page `!> tmpl <T>` + LF + body is written to
+/// the fixture, `<T>` to the template directory (or not at all), and requested through `kvarn::handle_cache`; the answer's
+/// identity body is what the template engine made of it.
+fn tmpl_render(x: &X) -> X {
+    static N: AtomicUsize = AtomicUsize::new(0);
+    let l = match x.as_l() {
+        Some(l) if l.len() == 2 => l,
+        _ => return X::bad(),
+    };
+    let (Some(body), Some(tfile)) = (l[0].as_b(), l[1].as_opt()) else { return X::bad() };
+    let tfile = match tfile {
+        Some(t) => match t.as_b() {
+            Some(b) => Some(b),
+            None => return X::bad(),
+        },
+        None => None,
+    };
+    install_hook();
+    fixture_files();
+    let n = N.fetch_add(1, Ordering::SeqCst);
+    let stem = format!("r{}-{n}", std::process::id());
+    let tname = format!("{stem}.html");
+    let mut page = format!("!> tmpl {tname}\n").into_bytes();
+    page.extend_from_slice(body);
+    put(&format!("public/gen/{stem}.html"), &page);
+    if let Some(t) = tfile {
+        put(&format!("templates/{tname}"), t);
+    }
+    let coll = collection();
+    let before = PANICS.load(Ordering::SeqCst);
+    let uri = format!("http://localhost/gen/{stem}.html");
+    let r = rt().block_on(async move {
+        tokio::spawn(async move {
+            let host = coll.get_host("localhost").expect("host");
+            let mut req = Request::builder()
+                .method(Method::GET)
+                .uri(uri)
+                .body(kvarn::application::Body::Bytes(Bytes::new().into()))
+                .expect("request");
+            let addr = SocketAddr::new(IpAddr::V4(net::Ipv4Addr::LOCALHOST), 4000);
+            let reply = kvarn::handle_cache(&mut req, addr, host).await;
+            (reply.response.status().as_u16(), reply.identity_body)
+        })
+        .await
+    });
+    let _ = std::fs::remove_file(format!("{}public/gen/{stem}.html", fixture_dir()));
+    let _ = std::fs::remove_file(format!("{}templates/{tname}", fixture_dir()));
+    match r {
+        Err(_) => X::panic(),
+        Ok(_) if PANICS.load(Ordering::SeqCst) != before => X::panic(),
+        Ok((200, body)) => X::ok(X::b(&body[..])),
+        Ok((status, _)) => X::L(vec![X::N(91), X::n(status)]),
+    }
+}
+
+// ----------------------------------------------------------------------------------------------------------------
+// If-Modified-Since through the real handle_cache, on a cache hit
+// ----------------------------------------------------------------------------------------------------------------
+
+enum Ims {
+    Status(u16),
+    Panicked(String),
+    NoHit,
+    Bad,
+}
+
+/// Warms the response cache of `/h` (a cacheable handler page), then sends `GET /h` with the given
+/// `if-modified-since` value to `kvarn::handle_cache`; the handler must not run again (a cache hit: the
+/// code under test is the hit arm).
+fn ims_request(value: &[u8]) -> Ims {
+    let Ok(hv) = HeaderValue::from_bytes(value) else { return Ims::Bad };
+    install_hook();
+    let desc = collection();
+    let before = PANICS.load(Ordering::SeqCst);
+    let r = rt().block_on(async move {
+        let addr = SocketAddr::new(IpAddr::V4(net::Ipv4Addr::LOCALHOST), 4000);
+        let mk = |ims: Option<HeaderValue>| {
+            let mut b = Request::builder().method(Method::GET).uri("http://localhost/h");
+            if let Some(v) = ims {
+                b = b.header("if-modified-since", v);
+            }
+            b.body(kvarn::application::Body::Bytes(Bytes::new().into())).expect("request")
+        };
+        let d2 = desc.clone();
+        let warm = tokio::spawn(async move {
+            let host = d2.get_host("localhost").expect("host");
+            let mut req = mk(None);
+            kvarn::handle_cache(&mut req, addr, host).await.response.status().as_u16()
+        })
+        .await;
+        if warm.is_err() {
+            return Err(());
+        }
+        let calls = H_CALLS.load(Ordering::SeqCst);
+        let task = tokio::spawn(async move {
+            let host = desc.get_host("localhost").expect("host");
+            let mut req = mk(Some(hv));
+            kvarn::handle_cache(&mut req, addr, host).await.response.status().as_u16()
+        })
+        .await;
+        Ok((task, H_CALLS.load(Ordering::SeqCst) != calls))
+    });
+    match r {
+        Err(()) => Ims::Panicked(format!("while warming the cache: {}", last_panic())),
+        Ok((Err(_), _)) => Ims::Panicked(last_panic()),
+        Ok((Ok(_), _)) if PANICS.load(Ordering::SeqCst) != before => Ims::Panicked(last_panic()),
+        Ok((Ok(_), true)) => Ims::NoHit,
+        Ok((Ok(status), false)) => Ims::Status(status),
+    }
+}
+
+/// exploration: input (B value)
+fn explore_date(x: &X) -> X {
+    let Some(v) = x.as_b() else { return X::bad() };
+    match ims_request(v) {
+        Ims::Bad => X::L(vec![X::N(96)]),
+        Ims::Panicked(m) => X::L(vec![X::N(2), X::b(m.as_bytes())]),
+        Ims::NoHit => X::L(vec![X::N(92), X::b(b"the second request was not served from the response cache")]),
+        Ims::Status(200 | 304) => X::ok(X::L(vec![])),
+        Ims::Status(s) => X::L(vec![X::N(91), X::n(s)]),
+    }
+}
+
+/// compared: input (L (N t0) (B value)) -> Ok status.  `t0` (unix seconds, chosen by the generator shortly before
+/// the run) stands for the entry's creation time in the model; values within a day of it are not generated.
+fn ims_decide(x: &X) -> X {
+    let l = match x.as_l() {
+        Some(l) if l.len() == 2 => l,
+        _ => return X::bad(),
+    };
+    let (Some(t0), Some(v)) = (l[0].as_n(), l[1].as_b()) else { return X::bad() };
+    let now = std::time::SystemTime::now().duration_since(std::time::UNIX_EPOCH).map_or(0, |d| d.as_secs()) as u128;
+    if now < t0 || now > t0 + 6 * 3600 {
+        return X::L(vec![X::N(96)]);
+    }
+    match ims_request(v) {
+        Ims::Bad => X::L(vec![X::N(96)]),
+        Ims::Panicked(_) => X::panic(),
+        Ims::NoHit => X::L(vec![X::N(92), X::b(b"the second request was not served from the response cache")]),
+        Ims::Status(s) => X::ok(X::n(s)),
+    }
+}
+
+// ----------------------------------------------------------------------------------------------------------------
+// stream.window
+// ----------------------------------------------------------------------------------------------------------------
+
+/// input: (L checked (L [range]) file_len) -> Ok (L announced sent) | Err 416
+/// `announced` is the content-length of the streamed reply, `sent` the number of body bytes that follow; when the
+/// file holds at least the announced bytes the next response on the connection (to a second request for a
+/// small page, sent when the body has arrived) must start right after them.
 fn stream_window(x: &X) -> X {
-    use tokio::io::{AsyncReadExt, AsyncWriteExt};
     let l = match x.as_l() {
         Some(l) if l.len() == 3 => l,
         _ => return X::bad(),
@@ -279,18 +749,53 @@ fn stream_window(x: &X) -> X {
         }
     }
     install_hook();
+    let mut last = String::new();
+    for _ in 0..3 {
+        match stream_once(hdr.as_deref(), len) {
+            Ok(x) => return x,
+            Err(e) => last = e,
+        }
+    }
+    trouble(&last)
+}
+
+async fn read_head(client: &mut tokio::net::TcpStream, buf: &mut Vec<u8>) -> Result<Option<(String, usize)>, String> {
+    use tokio::io::AsyncReadExt;
+    let mut tmp = [0u8; 8192];
+    loop {
+        if let Some(p) = buf.windows(4).position(|w| w == b"\r\n\r\n") {
+            return Ok(Some((String::from_utf8_lossy(&buf[..p + 4]).to_ascii_lowercase(), p + 4)));
+        }
+        match tokio::time::timeout(Duration::from_secs(30), client.read(&mut tmp)).await {
+            Ok(Ok(0)) | Ok(Err(_)) => return Ok(None),
+            Ok(Ok(n)) => buf.extend_from_slice(&tmp[..n]),
+            Err(_) => return Err("no response head in 30 s".to_string()),
+        }
+    }
+}
+
+/// Where the streamed window starts (only to know which bytes of the fixture file to expect): the first number of a
+/// `bytes=A-B` value both numbers of which are u64s, 0 for every other value (no range).
+fn window_start(h: &[u8]) -> u128 {
+    let Ok(v) = std::str::from_utf8(h) else { return 0 };
+    let Some(v) = v.strip_prefix("bytes=") else { return 0 };
+    if v.contains([',', ' ']) {
+        return 0;
+    }
+    let Some((a, b)) = v.split_once('-') else { return 0 };
+    match (a.parse::<u64>(), b.parse::<u64>()) {
+        (Ok(a), Ok(_)) => u128::from(a),
+        _ => 0,
+    }
+}
+
+fn stream_once(hdr: Option<&[u8]>, len: usize) -> Result<X, String> {
+    use tokio::io::{AsyncReadExt, AsyncWriteExt};
     let before = PANICS.load(Ordering::SeqCst);
-    let out = rt().block_on(async move {
-        let desc = descriptor();
-        let listener = tokio::net::TcpListener::bind("127.0.0.1:0").await.map_err(|e| e.to_string())?;
-        let addr = listener.local_addr().map_err(|e| e.to_string())?;
-        let mut client = tokio::net::TcpStream::connect(addr).await.map_err(|e| e.to_string())?;
-        let (server_end, peer) = listener.accept().await.map_err(|e| e.to_string())?;
-        let task = tokio::spawn(async move {
-            let _ = kvarn::handle_connection(kvarn::Incoming::Tcp(server_end), peer, desc, || true).await;
-        });
+    let out: Result<Result<X, X>, String> = rt().block_on(async move {
+        let (mut client, task) = connect(descriptor()).await?;
         let mut req = format!("GET /stream/s{len}.bin HTTP/1.1\r\nHost: localhost\r\n").into_bytes();
-        if let Some(h) = &hdr {
+        if let Some(h) = hdr {
             req.extend_from_slice(b"Range: ");
             req.extend_from_slice(h);
             req.extend_from_slice(b"\r\n");
@@ -298,36 +803,164 @@ fn stream_window(x: &X) -> X {
         req.extend_from_slice(b"\r\n");
         client.write_all(&req).await.map_err(|e| e.to_string())?;
         let mut buf = Vec::new();
-        let mut tmp = [0u8; 4096];
-        let head = loop {
-            if let Some(p) = buf.windows(4).position(|w| w == b"\r\n\r\n") {
-                break Some(String::from_utf8_lossy(&buf[..p + 4]).to_ascii_lowercase());
+        let Some((head, head_len)) = read_head(&mut client, &mut buf).await? else {
+            return Ok(Err(X::panic())); // closed without an answer
+        };
+        let status: u16 = head.split(' ').nth(1).and_then(|s| s.parse().ok()).unwrap_or(0);
+        let cl: Option<u128> = head.lines().find_map(|l| l.strip_prefix("content-length:").and_then(|v| v.trim().parse().ok()));
+        let res = match (status, cl) {
+            (416, _) => Ok(X::err(416)),
+            (200 | 206, Some(announced)) => {
+                // what the file can deliver from the window's start
+                let start = hdr.map_or(0, window_start);
+                let available = (len as u128).saturating_sub(start);
+                let expect = announced.min(available) as usize;
+                buf.drain(..head_len);
+                let mut tmp = vec![0u8; 64 * 1024];
+                let mut short = false;
+                while buf.len() < expect {
+                    match tokio::time::timeout(Duration::from_secs(30), client.read(&mut tmp)).await {
+                        Ok(Ok(0)) | Ok(Err(_)) => {
+                            short = true;
+                            break;
+                        }
+                        Ok(Ok(n)) => buf.extend_from_slice(&tmp[..n]),
+                        Err(_) => return Err("streamed body stalled for 30 s".to_string()),
+                    }
+                }
+                let wrong = (0..expect.min(buf.len())).any(|i| buf[i] != ((start as usize + i) % 251) as u8);
+                if short || wrong {
+                    Ok(X::L(vec![X::N(92), X::N(announced), X::n(buf.len()), X::bool(wrong)]))
+                } else if announced <= available {
+                    // the reply to a second request on the same connection must start right after the streamed body
+                    buf.drain(..expect);
+                    client.write_all(b"GET /whoami HTTP/1.1\r\nHost: localhost\r\n\r\n").await.map_err(|e| e.to_string())?;
+                    match read_head(&mut client, &mut buf).await? {
+                        Some((h2, _)) if h2.starts_with("http/1.1 200") => Ok(X::ok(X::L(vec![X::N(announced), X::n(expect)]))),
+                        Some((h2, _)) => Ok(X::L(vec![X::N(92), X::N(announced), X::n(expect), X::b(&h2.as_bytes()[..h2.len().min(40)])])),
+                        None => Ok(X::L(vec![X::N(92), X::N(announced), X::n(expect), X::b(b"closed")])),
+                    }
+                } else {
+                    // fewer bytes than announced exist: nothing more can be said about the framing
+                    Ok(X::ok(X::L(vec![X::N(announced), X::n(expect)])))
+                }
             }
-            match tokio::time::timeout(Duration::from_secs(10), client.read(&mut tmp)).await {
-                Ok(Ok(0)) | Ok(Err(_)) => break None,
-                Ok(Ok(n)) => buf.extend_from_slice(&tmp[..n]),
-                Err(_) => return Err("no response head in 10 s".to_string()),
-            }
+            _ => Ok(X::L(vec![X::N(91), X::n(status), X::b(head.as_bytes())])),
         };
         drop(client);
-        let _ = tokio::time::timeout(Duration::from_secs(10), task).await;
-        Ok(head)
+        let _ = tokio::time::timeout(Duration::from_secs(30), task).await;
+        Ok(res)
     });
-    let after = PANICS.load(Ordering::SeqCst);
-    if after != before {
-        return X::panic();
+    if PANICS.load(Ordering::SeqCst) != before {
+        return Ok(X::panic());
     }
     match out {
-        Err(e) => X::L(vec![X::N(93), X::b(e.as_bytes())]),
-        Ok(None) => X::panic(), // closed without an answer
-        Ok(Some(head)) => {
-            let status: u16 = head.split(' ').nth(1).and_then(|s| s.parse().ok()).unwrap_or(0);
-            let cl: Option<u128> = head.lines().find_map(|l| l.strip_prefix("content-length:").and_then(|v| v.trim().parse().ok()));
-            match (status, cl) {
-                (416, _) => X::err(416),
-                (200 | 206, Some(n)) => X::ok(X::N(n)),
-                _ => X::L(vec![X::N(91), X::n(status), X::b(head.as_bytes())]),
+        Err(e) => Err(e),
+        Ok(Ok(x)) | Ok(Err(x)) => Ok(x),
+    }
+}
+
+// ----------------------------------------------------------------------------------------------------------------
+// c02.path: the class of the answer to ONE request, compared with the model's request_path
+// ----------------------------------------------------------------------------------------------------------------
+
+pub const PATH_BODY: &[u8] = b"0123456789";
+
+/// (default) host `localhost` + `b.example` (alias `alias.example`), both: `Extensions::new()` + one handler for
+/// every path that reads the request body (64 KiB limit) and answers the 10-byte page; no response cache.
+fn path_descriptor(no_default: bool) -> Arc<PortDescriptor> {
+    static D: OnceLock<Arc<PortDescriptor>> = OnceLock::new();
+    static N: OnceLock<Arc<PortDescriptor>> = OnceLock::new();
+    (if no_default { &N } else { &D }).get_or_init(|| {
+        fixture_files();
+        let dir = fixture_dir();
+        let mk = |name: &'static str| {
+            let mut ext = Extensions::new();
+            ext.add_prepare_fn(
+                Box::new(|req, _| !req.uri().path().starts_with("/./")),
+                prepare!(req, _host, _path, _addr, {
+                    let _ = req.body_mut().read_to_bytes(64 * 1024).await;
+                    let mut r = Response::new(Bytes::from_static(PATH_BODY));
+                    r.headers_mut().insert("content-type", HeaderValue::from_static("text/plain"));
+                    FatResponse::no_cache(r)
+                }),
+                extensions::Id::new(5, "page"),
+            );
+            let mut host = Host::unsecure(name, format!("{dir}other"), ext, host::Options::default());
+            host.limiter.disable();
+            host.disable_response_cache();
+            host
+        };
+        let mut other = mk("b.example");
+        other.add_alternative_name("alias.example");
+        let coll = if no_default {
+            HostCollection::builder().insert(mk("localhost")).insert(other).build()
+        } else {
+            HostCollection::builder().default(mk("localhost")).insert(other).build()
+        };
+        Arc::new(PortDescriptor::unsecure(8080, coll))
+    })
+    .clone()
+}
+
+/// input: (L checked (B stream) (L segment..) no_default) -> outcome class; `no_default`: the collection has no default host
+///   Ok (L (N 0) (N e))?  no: (L (N 0) class), class = (L (N 0)) closed | (L (N 409)) | (L (N 400)) | (L (N 403)) |
+///   (L (N 204)) | (L (N 416)) | (L (N 1) status content-length (L [content-range]) body)
+fn c02_path(x: &X) -> X {
+    let l = match x.as_l() {
+        Some(l) if l.len() == 4 => l,
+        _ => return X::bad(),
+    };
+    let (Some(data), Some(segs), Some(no_default)) = (l[1].as_b(), l[2].as_l(), l[3].as_bool()) else { return X::bad() };
+    let mut chunks = Vec::new();
+    for s in segs {
+        match s.as_n() {
+            Some(n) => chunks.push(n as usize),
+            None => return X::bad(),
+        }
+    }
+    install_hook();
+    let mut last = String::new();
+    for _ in 0..3 {
+        let data = data.to_vec();
+        let chunks = chunks.clone();
+        let before = PANICS.load(Ordering::SeqCst);
+        let r = rt().block_on(async move {
+            let (mut client, task) = connect(path_descriptor(no_default)).await?;
+            let got = talk(&mut client, &data, chunks, true).await;
+            drop(client);
+            match tokio::time::timeout(Duration::from_secs(30), task).await {
+                Err(_) => Err("connection task still running after 30 s".to_string()),
+                Ok(Err(e)) if e.is_panic() => Ok(None),
+                Ok(_) => Ok(Some(got)),
             }
+        });
+        match r {
+            Err(e) => last = e,
+            Ok(None) => return X::panic(),
+            Ok(Some(_)) if PANICS.load(Ordering::SeqCst) != before => return X::panic(),
+            Ok(Some(got)) => return X::ok(classify_reply(&got)),
+        }
+    }
+    trouble(&last)
+}
+
+fn classify_reply(got: &[u8]) -> X {
+    if got.is_empty() {
+        return X::L(vec![X::N(0)]);
+    }
+    let Some(p) = got.windows(4).position(|w| w == b"\r\n\r\n") else { return X::L(vec![X::N(90), X::b(got)]) };
+    let head = String::from_utf8_lossy(&got[..p]).to_ascii_lowercase();
+    let body = &got[p + 4..];
+    let status: u128 = head.split(' ').nth(1).and_then(|s| s.parse().ok()).unwrap_or(0);
+    let header = |name: &str| head.lines().find_map(|l| l.strip_prefix(name).map(|v| v.trim().to_string()));
+    match status {
+        409 | 400 | 403 | 204 | 416 => X::L(vec![X::N(status)]),
+        _ => {
+            let cl: u128 = header("content-length:").and_then(|v| v.parse().ok()).unwrap_or(u128::MAX);
+            // only the first response is classified: the body is cut at its announced length
+            let body = &body[..body.len().min(cl.min(1 << 20) as usize)];
+            X::L(vec![X::N(1), X::N(status), X::N(cl), X::opt(header("content-range:").map(X::b)), X::b(body)])
         }
     }
 }
@@ -335,7 +968,21 @@ fn stream_window(x: &X) -> X {
 pub fn dispatch(comp: &str, x: &X) -> Option<X> {
     Some(match comp {
         "explore.conn" => explore_conn(x),
+        "explore.server" => explore_server(x),
+        "explore.file" => explore_file(x),
+        "explore.date" => explore_date(x),
+        "tmpl.render" => tmpl_render(x),
+        "ims.decide" => ims_decide(x),
         "stream.window" => stream_window(x),
+        "c02.path" => c02_path(x),
+        // debugging aid: the raw bytes the main collection answers
+        "debug.raw" => match parse_conn_input(x) {
+            Some((data, chunks, rd)) => {
+                install_hook();
+                X::b(rt().block_on(run_conn(data, chunks, rd)).1)
+            }
+            None => X::bad(),
+        },
         _ => return None,
     })
 }
